@@ -171,8 +171,11 @@ func (r *Rec) begin() {
 func (r *Rec) end(c any, err error) {
 	r.mu.Lock()
 	defer r.mu.Unlock()
-	if _, sk := err.(errSkip); sk {
+	if sk, isSkip := err.(errSkip); isSkip {
 		r.discarded++
+		if os.Getenv("VERIF_SHOW_SKIPS") != "" {
+			fmt.Println("SKIP:", sk.why)
+		}
 		return
 	}
 	r.evals++
